@@ -29,3 +29,9 @@ def run(v, tier, rng):
     # pipe events, redial and accept on the real inproc transport, incl. pipes closed in ADD_PRE on either side (wire/Inproc.tla)
     from checks.inproc import run_inproc
     run_inproc(v, tier, pred=concerns_tran, mc=False, plans=("reject", "sim"), scale=0.7)
+    # "a listener keeps accepting whatever happens to individual pipes" on the real tcp / ipc / socket:// transports: behaviours of
+    # wire/Framing.tla in which peers hang up during or right after the handshake, send garbage or oversize frames, and a later
+    # well-behaved connection must still be accepted and served (what is kept: a connection wrongly refused, closed or not served)
+    from checks.wirelib import run_wire
+    run_wire(v, tier, lambda sig, text: any(k in sig.rsplit(":", 1)[-1] for k in ("closed", "got", "ok")) or "watchdog" in sig,
+             [("Framing_sim.cfg", "pull", 4, [(1, 0), (1, 3)], 150)])
